@@ -1,0 +1,84 @@
+//go:build verif
+
+package messagequeue
+
+import (
+	"context"
+	"slices"
+	"strings"
+	"time"
+
+	bswl "github.com/ipfs/boxo/bitswap/client/wantlist"
+	cid "github.com/ipfs/go-cid"
+	peer "github.com/libp2p/go-libp2p/core/peer"
+)
+
+// Verification hooks (built only with -tags verif). They let an out-of-tree harness construct a
+// MessageQueue with its own network, run the sender's steps one at a time on the caller's
+// schedule, and read the queue's bookkeeping. Nothing here changes the behaviour of the queue.
+
+// VerifHook, when set, is called at the schedule points of extractOutgoingMessage:
+//
+//	0: on entry (before the first lock)           a,b,c = 0
+//	1: after the snapshot, lock released          a,b,c = len(cancels), len(peerEntries), len(bcstEntries)
+//	2: after the message was filled, before the second lock   a,b,c = sentCancels, sentPeerEntries, sentBcstEntries
+//
+// The hook may block; it is called without wllock held.
+var VerifHook func(point, a, b, c int)
+
+func verifPoint(point, a, b, c int) {
+	if h := VerifHook; h != nil {
+		h(point, a, b, c)
+	}
+}
+
+// verifSortCids makes the (map-ordered, hence arbitrary) order of the cancel snapshot deterministic.
+func verifSortCids(cs []cid.Cid) {
+	slices.SortFunc(cs, func(a, b cid.Cid) int { return strings.Compare(a.KeyString(), b.KeyString()) })
+}
+
+// VerifNew is newMessageQueue without a DontHaveTimeoutManager and without the event channel.
+func VerifNew(ctx context.Context, p peer.ID, network MessageNetwork, maxMsgSize int) *MessageQueue {
+	return newMessageQueue(ctx, p, network, maxMsgSize, sendErrorBackoff, maxValidLatency, nil, nil)
+}
+
+// VerifSendMessage runs one sendMessage call of the run loop on the calling goroutine.
+func (mq *MessageQueue) VerifSendMessage() { mq.sendMessage() }
+
+// VerifRebroadcast runs one rebroadcastWantlist call of the run loop on the calling goroutine.
+func (mq *MessageQueue) VerifRebroadcast(now time.Time, interval time.Duration) {
+	mq.rebroadcastWantlist(now, interval)
+}
+
+// VerifHandleResponse runs one handleResponse call of the run loop on the calling goroutine.
+func (mq *MessageQueue) VerifHandleResponse(ks []cid.Cid) { mq.handleResponse(ks) }
+
+// VerifState is a copy of the queue's bookkeeping.
+type VerifState struct {
+	PeerPending, PeerSent, BcstPending, BcstSent []bswl.Entry
+	PeerSentAt, BcstSentAt                       map[cid.Cid]time.Time
+	Cancels                                      []cid.Cid
+	Priority                                     int32
+}
+
+func (mq *MessageQueue) VerifState() VerifState {
+	mq.wllock.Lock()
+	defer mq.wllock.Unlock()
+	cp := func(m map[cid.Cid]time.Time) map[cid.Cid]time.Time {
+		o := make(map[cid.Cid]time.Time, len(m))
+		for k, v := range m {
+			o[k] = v
+		}
+		return o
+	}
+	return VerifState{
+		PeerPending: slices.Clone(mq.peerWants.pending.Entries()),
+		PeerSent:    slices.Clone(mq.peerWants.sent.Entries()),
+		BcstPending: slices.Clone(mq.bcstWants.pending.Entries()),
+		BcstSent:    slices.Clone(mq.bcstWants.sent.Entries()),
+		PeerSentAt:  cp(mq.peerWants.sentAt),
+		BcstSentAt:  cp(mq.bcstWants.sentAt),
+		Cancels:     mq.cancels.Keys(),
+		Priority:    mq.priority,
+	}
+}
